@@ -20,6 +20,8 @@
      save  : table -> option (saved * table)            lrusession.save (None = its panic), returns the table after the walk
      load  : saved -> option table                      lrusession.load (None = newLRUSession's panic on size 0)
      snapshot : state -> option (snap * state),  restore : snap -> option state
+     load_into : table -> saved -> option table, install : state -> snap -> option state
+                                                        snapshot installed on a LIVE replica (old table discarded)
    The capacity is a field of the table ([t_cap]); a fresh SessionManager uses the
    generated [lru_max_session_count] (rsm.LRUMaxSessionCount), a loaded one the size
    stored in the snapshot — exactly as the Go code does.
@@ -155,6 +157,13 @@ Definition load (sv : saved) : option table :=
   if fst sv =? 0 then None
   else Some (fold_left (fun t s => lru_add s t) (snd sv) (empty_table (fst sv))).
 
+(* lrusession.load as a method of an EXISTING (possibly non-empty) table — the
+   case of a snapshot installed on a running replica (StateMachine.Recover on the
+   live object). The Go code builds a brand-new cache (newLRUSession(sz)),
+   assigns rec.sessions = newRec.sessions and rec.size = sz, and only then adds
+   the sessions of the image: nothing of the previous table survives. *)
+Definition load_into (t_old : table) (sv : saved) : option table := load sv.
+
 (* ---- SessionManager (sessionmanager.go) + StateMachine.handleEntry/update - *)
 
 Record entry := mkEntry {
@@ -284,6 +293,18 @@ Definition restore (sn : snap) : option state :=
   | None => None
   end.
 
+(* StateMachine.Recover on a live replica: snapshotter.Load(ss, s.sessions, s.sm)
+   = LoadSessions into the existing session manager, then the user Recover
+   (which, by its contract, replaces the user state) *)
+Definition install (st_old : state) (sn : snap) : option state :=
+  match load_into (st_tab st_old) (fst sn) with
+  | Some t => match sm_recover (snd sn) with
+              | Some s => Some (mkState t s)
+              | None => None
+              end
+  | None => None
+  end.
+
 End Session.
 
 (* ---- an executable user state machine for extraction ---------------------- *)
@@ -310,6 +331,7 @@ Definition acc_recover (b : bytes) : option N :=
 Definition acc_step := @step N acc_result acc_update.
 Definition acc_snapshot := @snapshot N acc_result acc_save.
 Definition acc_restore := @restore N acc_result acc_recover.
+Definition acc_install := @install N acc_result acc_recover.
 Definition acc_init (cap : N) : @state N acc_result := init_state cap 0.
 Definition acc_save_table := @save acc_result.
 Definition default_cap : N := lru_max_session_count.
